@@ -118,6 +118,9 @@ class CategoricalDiscretizer(BaseDiscretizer):
 
     @extend_docstring(BaseDiscretizer.fit)
     def fit(self, X: DataFrame, y: Series) -> None:  # pylint: disable=W0222
+        # checking for previous fits before modifying any attribute
+        self._check_is_not_fitted()
+
         # copying dataframe and checking data before bucketization
         x_copy = self._prepare_data(X, y)
 
@@ -295,6 +298,9 @@ class OrdinalDiscretizer(BaseDiscretizer):
 
     @extend_docstring(BaseDiscretizer.fit)
     def fit(self, X: DataFrame, y: Series) -> None:  # pylint: disable=W0222
+        # checking for previous fits before modifying any attribute
+        self._check_is_not_fitted()
+
         if self.verbose:  # verbose if requested
             print(f" - [OrdinalDiscretizer] Fit {str(self.features)}")
 
@@ -598,6 +604,9 @@ class ChainedDiscretizer(BaseDiscretizer):
 
     @extend_docstring(BaseDiscretizer.fit)
     def fit(self, X: DataFrame, y: Series = None) -> None:  # pylint: disable=W0222
+        # checking for previous fits before modifying any attribute
+        self._check_is_not_fitted()
+
         # filling nans
         x_copy = self._prepare_data(X, y)
 
